@@ -12,6 +12,8 @@ CHECKS = {}
 def add(pid, pkg, level, qn, tn, module="harness", **kw):
     q, t = tiers(qn, tn, **{k: v for k, v in kw.items() if k in ("qshards", "tshards", "qtimeout", "ttimeout", "q", "t")})
     c = {"module": module, "pkg": pkg, "level": level, "quick": q, "thorough": t}
+    if "fuzz" in kw:
+        t["fuzz"] = kw["fuzz"]
     for k in ("race", "toolchain", "run", "assumptions", "exhaustive_if", "manifest"):
         if k in kw:
             c[k] = kw[k]
@@ -21,7 +23,7 @@ add("C20", "c20", "exploration", 1000, 4000, exhaustive_if=["FuncsExhaustive"],
     assumptions=["reflection finds every function field of Funcs (fields of func type whose name ends in '_')",
                  "sentinel arguments/results: delegation is judged by identity of what the recorder saw and returned"])
 
-add("C17", "c17", "exploration", 8000, 80000,
+add("C17", "c17", "exploration", 8000, 80000, fuzz=[("FuzzParse", 90)],
     assumptions=["the reference grammar in c17_test.go transcribes the grammar documented in ociref/reference.go and the OCI tag grammar; registered digest algorithms are sha256/384/512",
                  "router agreement is observed through ociserver.ServeHTTP with a recording backend (internal/ocirequest is not importable)"])
 
@@ -66,7 +68,7 @@ add("C15", "c15", "exploration", 500, 6000,
     assumptions=["members are ocimem registries (their own semantics are C02's business); expected union results are computed from the members' own answers",
                  "answer order under the concurrent policy is steered with a delay wrapper (exact schedules are C16's business)"])
 
-add("C09", "c09", "exploration", 4000, 40000, exhaustive_if=["ScopePairsSmallUniverse", "ScopeSetsSmallUniverse"],
+add("C09", "c09", "exploration", 4000, 40000, fuzz=[("FuzzParseScope", 60)], exhaustive_if=["ScopePairsSmallUniverse", "ScopeSetsSmallUniverse"],
     assumptions=["the naive model is a Go map keyed by the triple; the documented scope syntax (space-separated type:resource:action[,action]) is transcribed in modelParse",
                  "Len on the unlimited scope panics by documentation and is not called"])
 
@@ -78,12 +80,12 @@ add("C07", "c07", "exploration", 1500, 12000, exhaustive_if=[],
                  "multi-%w joins are not generated (MarshalError documents that it picks one); error bodies stay below the client's documented 8 KiB limit",
                  "BlobWriter methods are not carriers (the property names Interface methods)"])
 
-add("C06", "c06", "exploration", 10000, 150000,
+add("C06", "c06", "exploration", 10000, 150000, fuzz=[("FuzzGenerated", 120)],
     assumptions=["the handler is driven in-process (ServeHTTP + httptest.ResponseRecorder) so net/http's own request sanitising is bypassed: strictly more hostile than the wire",
                  "a 500 with code UNKNOWN is conformant by the statement (status agrees with the code) and is not flagged",
                  "backend is ocimem behind a recording wrapper; backend-side inconsistencies are not injected here"])
 
-add("C18", "c18", "exploration", 10000, 100000,
+add("C18", "c18", "exploration", 10000, 100000, fuzz=[("FuzzGenerated", 120)],
     assumptions=["responses are served by a scripted RoundTripper that always sets Response.Request (as a real transport does) and fails every request once the script is exhausted: that makes 'the server's answers are finite' concrete",
                  "a call that has not returned after 10 s is reported as looping without progress (normal calls take microseconds)"])
 
